@@ -104,6 +104,29 @@ def _run(ctx):
     eq(ctx, "R3", "constant branch returns b_c_complex", bc, b[0], sbw)
     eq(ctx, "R3", "constant branch returns the tabulated total cross section", tot, s[0], sbw)
     nH1 = I.getattr(A["H1"], "neutron")
+    # the table branch at concrete wavelengths first (below the table, at its nodes, between them, above it): linear between
+    # the nodes, the end-point values outside - whatever routine does the lookup
+    from .nworld import ed_rows as _edr
+    _EF = I.global_name("nsf", "ENERGY_FACTOR")
+    _rows = list(reversed(_edr("H1")))
+    _xp = [sp.sqrt(_EF / (1000 * r_[0])) for r_ in _rows]
+    _fp = [r_[1] + sp.I * r_[2] for r_ in _rows]
+    half = sp.Rational(1, 2)
+    for label, x_, want_ in (("below the table", _xp[0] * half, _fp[0]), ("at the first node", _xp[0], _fp[0]),
+                             ("between the first two nodes", (_xp[0] + _xp[1]) * half, (_fp[0] + _fp[1]) * half),
+                             ("at the middle node", _xp[1], _fp[1]),
+                             ("three quarters of the way between the last two nodes", _xp[1] + (_xp[2] - _xp[1]) * sp.Rational(3, 4),
+                              _fp[1] + (_fp[2] - _fp[1]) * sp.Rational(3, 4)),
+                             ("at the last node", _xp[2], _fp[2]), ("above the table", _xp[2] * 2, _fp[2])):
+        rr = raises(lambda: I.call(I.getattr(nH1, "scattering_by_wavelength"), [x_], {}))
+        if rr:
+            ctx.fail("R3", f"table branch at a scalar wavelength {label}", f"raises {rr}", sbw)
+            continue
+        bc_, tot_ = I.call(I.getattr(nH1, "scattering_by_wavelength"), [x_], {})
+        if isinstance(bc_, Vec) and len(bc_.items) == 1:
+            bc_ = bc_.items[0]
+        eq(ctx, "R3", f"table branch at a scalar wavelength {label}: the scattering length is the clamped linear interpolation of the table",
+           bc_, want_, sbw)
     bce, tote = I.call(I.getattr(nH1, "scattering_by_wavelength"), [lam], {})
     # what the lookup has to be, from the generated table (energies in eV -> wavelength in Angstrom, increasing wavelength)
     from .nworld import ed_rows
@@ -137,7 +160,7 @@ def _run(ctx):
         g2 = sp.sympify(got2[k]).xreplace({apps[0]: B}) if ok else got2[k]
         eq(ctx, "R3", f"{k} with an energy-dependent atom in the compound", g2, want2[k], cs,
            nonzero=[rho * (q[0] * m[0] + q[1] * mH1)])
-    ctx.floor("R3", 12)
+    ctx.floor("R3", 19)
 
     # R4 energy_dependent_init over a generic 3-row table
     _r4(ctx)
